@@ -11,6 +11,17 @@ func main() {
 		os.Exit(2)
 	}
 	switch os.Args[1] {
+	case "check":
+		tier := os.Getenv("VERIF_TIER")
+		if tier == "" {
+			tier = "quick"
+		}
+		for i := 3; i+1 < len(os.Args); i++ {
+			if os.Args[i] == "--tier" {
+				tier = os.Args[i+1]
+			}
+		}
+		os.Exit(runCheck(os.Args[2], tier))
 	case "load":
 		p, err := Load("/repo", nil)
 		if err != nil {
@@ -18,6 +29,38 @@ func main() {
 			os.Exit(2)
 		}
 		fmt.Printf("packages=%d functions=%d\n", len(p.Pkgs), len(p.AllFuncs))
+	case "dump-layouts":
+		p, err := Load("/repo", nil)
+		if err != nil {
+			fmt.Fprintln(os.Stderr, err)
+			os.Exit(2)
+		}
+		dumpLayouts(p)
+	case "dump-wire":
+		p, err := Load("/repo", nil)
+		if err != nil {
+			fmt.Fprintln(os.Stderr, err)
+			os.Exit(2)
+		}
+		dumpWire(p)
+	case "walk":
+		p, err := Load("/repo", nil)
+		if err != nil {
+			fmt.Fprintln(os.Stderr, err)
+			os.Exit(2)
+		}
+		dumpWalk(p, os.Args[2], os.Args[3], len(os.Args) > 4)
+	case "dump-ops":
+		p, err := Load("/repo", nil)
+		if err != nil {
+			fmt.Fprintln(os.Stderr, err)
+			os.Exit(2)
+		}
+		only := ""
+		if len(os.Args) > 2 {
+			only = os.Args[2]
+		}
+		dumpOps(p, only)
 	default:
 		os.Exit(2)
 	}
